@@ -34,9 +34,11 @@ one set of flags and one instance per mailbox:
          never reused.  The new entry is not `\Deleted` (per-mailbox flag; RFC 3501's "flags
          SHOULD be preserved" is honoured for the shared flags).  COPY onto the selected mailbox
          itself is the same rule.  COPY does not look at the source mailbox (RFC 2180 §4.4.1).
-* MOVE   RFC 6851 §3.3: "COPY, STORE +FLAGS.SILENT \Deleted, UID EXPUNGE" in one step:
-         `refMove = refCopy` followed by the removal of the named messages from the source, unless
-         source = destination (then the fresh instance must stay: remove + re-add under new UIDs).
+* MOVE   RFC 6851 §3.3: "COPY, STORE +FLAGS.SILENT \Deleted, UID EXPUNGE" in one step, "each message is either
+         moved or unaffected": the named messages that still are in the source mailbox move (`refCopy` into the
+         destination, then removal from the source; onto the source itself: remove + re-add under new UIDs); a named
+         message that is no longer in the source (expunged elsewhere) cannot be moved and is unaffected — unlike
+         COPY, MOVE does not bring it back.
 * APPEND creates a new message with the given flags and bytes at the end of the mailbox.
 
 `refStep` is total: a command naming a mailbox that does not exist changes nothing.
@@ -191,10 +193,17 @@ def refClose (s : State) (mb : String) : State := refExpunge s mb
 def refCopy (s : State) (dst : String) (msgs : List MsgRef) : State :=
   s.updMailbox dst fun b => b.add msgs
 
+/-- is the message in the mailbox? -/
+def State.holds (s : State) (mb : String) (m : MsgRef) : Bool :=
+  match s.mailbox? mb with
+  | some b => b.entries.any (·.msg == m)
+  | none => false
+
 def refMove (s : State) (src dst : String) (msgs : List MsgRef) : State :=
-  if !s.hasMailbox dst then s
-  else if src == dst then refCopy s dst msgs
-  else expungeMsgs (refCopy s dst msgs) src msgs
+  if !s.hasMailbox dst then s else
+  let moving := msgs.filter (s.holds src)
+  if src == dst then refCopy s dst moving
+  else expungeMsgs (refCopy s dst moving) src moving
 
 /-- a message command with its message set resolved against the issuing session's view -/
 inductive Cmd where
